@@ -1,6 +1,8 @@
 package rules
 
 import (
+	"kverif/internal/load"
+	"sort"
 	"strings"
 
 	"golang.org/x/tools/go/packages"
@@ -19,6 +21,7 @@ func c06(c *Ctx) {
 	r.Decides("addPodAllocation and release write the same five ledgers with dual operations on the same amounts")
 	r.Decides("every access to the NodeAllocation ledgers happens under NodeAllocation.lock (write lock for writes)")
 	r.Decides("allocateCPUSet returns a CPU set under a required bind policy only after satisfiedRequiredCPUBindPolicy returned nil; that verifier returns nil only if the policy predicate held")
+	r.Decides("NodeAllocation.update is release+addPodAllocation unless a skip compares every field addPodAllocation uses for the ledgers; in takePreferredCPUs every CPU set offered to takeCPUs is derived from the free set by Intersection/Difference only, and the second offer excludes the first")
 	r.Declines("exact count of CPUs, disjointness of CPU ids, never-more-than-free (set arithmetic over topologies)")
 	r.Declines("equality of the ledger with the sum of live pods' allocations over a history")
 
@@ -33,6 +36,9 @@ func c06(c *Ctx) {
 	} else {
 		r.Floor("SORT", "nodenumaresource comparator sites", n, 5)
 	}
+
+	c06frame(c)
+	c06subset(c)
 
 	// ---- MIRROR
 	r.Rule("MIRROR: the effect sets of addPodAllocation and release over the receiver's fields have the same roots and dual operations (mapstore<->mapdelete, Insert<->delete, Add<->Subtract*, RefCount+1<->RefCount-1) on the same amount operand")
@@ -254,5 +260,144 @@ func c06verifier(c *Ctx, fn *ssa.Function) {
 		}
 		c.R.Check(ok, "PATH", key+"/"+name+"/policy-constant", c.InstrPos(cl), "predicate evaluated under policy == "+want[name],
 			"predicate is not guarded by policy == "+want[name]+": guards are "+an.DescribeGuards(an.Guards(cl)))
+	}
+}
+
+// c06frame: NodeAllocation.update re-books the pod completely.
+func c06frame(c *Ctx) {
+	r := c.R
+	r.Rule("FRAME(update): NodeAllocation.update either always performs release(uid) followed by addPodAllocation(new), or every path that skips them is guarded by comparisons that mention every PodAllocation field addPodAllocation reads individually (UID, CPUSet, CPUExclusivePolicy, NUMANodeResources, ...)")
+	up := c.Fn(numaPkg, "NodeAllocation", "update")
+	add := c.Fn(numaPkg, "NodeAllocation", "addPodAllocation")
+	if up == nil || add == nil {
+		return
+	}
+	key := fkey(up)
+	reads := map[string]bool{}
+	for _, b := range add.Blocks {
+		for _, in := range b.Instrs {
+			if fa, ok := in.(*ssa.FieldAddr); ok && len(add.Params) > 1 && fa.X == ssa.Value(add.Params[1]) {
+				reads[fieldNameOf(fa)] = true
+			}
+		}
+	}
+	r.Floor("FRAME", "PodAllocation fields read by addPodAllocation", len(reads), 4)
+	var seq []string
+	for _, cl := range an.Calls(up, false) {
+		switch an.ShortCallee(cl.Common()) {
+		case "release", "addPodAllocation":
+			seq = append(seq, an.ShortCallee(cl.Common()))
+		}
+	}
+	r.Check(strings.Join(seq, ";") == "release;addPodAllocation", "FRAME", key+"/pair", c.Pos(up.Pos()), "release then addPodAllocation", "update does not consist of release followed by addPodAllocation: "+strings.Join(seq, ";"))
+	reach := an.Explore(up, nil, nil, func(in ssa.Instruction) bool {
+		cl, ok := in.(ssa.CallInstruction)
+		return ok && (an.ShortCallee(cl.Common()) == "release" || an.ShortCallee(cl.Common()) == "addPodAllocation")
+	})
+	skips := reach.Returns()
+	if len(skips) == 0 {
+		r.OK("FRAME", key+"/no-skip", c.Pos(up.Pos()), "every path performs the release/add pair")
+		return
+	}
+	compared := map[string]bool{}
+	for _, b := range up.Blocks {
+		ifi, ok := b.Instrs[len(b.Instrs)-1].(*ssa.If)
+		if !ok {
+			continue
+		}
+		for x := range backwardAll(ifi.Cond) {
+			if fa, ok := x.(*ssa.FieldAddr); ok && fa.X == ssa.Value(up.Params[1]) {
+				compared[fieldNameOf(fa)] = true
+			}
+		}
+	}
+	var missing []string
+	for f := range reads {
+		if !compared[f] {
+			missing = append(missing, f)
+		}
+	}
+	sort.Strings(missing)
+	r.Check(len(missing) == 0, "FRAME", key+"/no-skip", c.InstrPos(skips[0]), "the skip path compares every field addPodAllocation uses", "update can return without release/addPodAllocation although these PodAllocation fields, which addPodAllocation books into the ledgers, are not compared: "+strings.Join(missing, ", ")+" (the ledger no longer equals the sum of the recorded allocations)")
+}
+
+// c06subset: CPUs are only ever picked from the free set.
+func c06subset(c *Ctx) {
+	r := c.R
+	r.Rule("FLOW(subset): in takePreferredCPUs the CPU set offered to each takeCPUs call derives from the availableCPUs parameter through Intersection (either operand) / Difference (first operand) / merges only; where both calls can run, the second offer is Difference(available, <first offer>)")
+	fn := c.Fn(numaPkg, "", "takePreferredCPUs")
+	if fn == nil {
+		return
+	}
+	var avail *ssa.Parameter
+	for _, p := range fn.Params {
+		if p.Name() == "availableCPUs" {
+			avail = p
+		}
+	}
+	if avail == nil {
+		r.Unknown("FLOW", fkey(fn)+"/subset", c.Pos(fn.Pos()), "parameter availableCPUs not found")
+		return
+	}
+	var subset func(v ssa.Value, seen map[ssa.Value]bool) bool
+	subset = func(v ssa.Value, seen map[ssa.Value]bool) bool {
+		if v == ssa.Value(avail) {
+			return true
+		}
+		if seen[v] {
+			return true
+		}
+		seen[v] = true
+		switch x := v.(type) {
+		case *ssa.Phi:
+			for _, e := range x.Edges {
+				if !subset(e, seen) {
+					return false
+				}
+			}
+			return true
+		case *ssa.Call:
+			switch an.CalleeName(&x.Call) {
+			case "(" + load.Module + "/pkg/util/cpuset.CPUSet).Intersection":
+				return subset(x.Call.Args[0], seen) || subset(x.Call.Args[1], seen)
+			case "(" + load.Module + "/pkg/util/cpuset.CPUSet).Difference", "(" + load.Module + "/pkg/util/cpuset.CPUSet).Clone":
+				return subset(x.Call.Args[0], seen)
+			}
+		}
+		return false
+	}
+	var takes []*ssa.Call
+	for _, cl := range an.Calls(fn, false) {
+		if an.ShortCallee(cl.Common()) == "takeCPUs" {
+			if call, ok := cl.(*ssa.Call); ok {
+				takes = append(takes, call)
+			}
+		}
+	}
+	r.Floor("FLOW", "takeCPUs calls in takePreferredCPUs", len(takes), 2)
+	for i, t := range takes {
+		offer := t.Call.Args[2]
+		r.Check(subset(offer, map[ssa.Value]bool{}), "FLOW", sprintf("%s/offer#%d/within-free", fkey(fn), i+1), c.InstrPos(t), "the offered CPUs are a subset of the free CPUs", "the CPU set offered to takeCPUs ("+an.Path(offer)+") is not derived from availableCPUs by Intersection/Difference: CPUs that are not free for this pod (held by others, node-reserved) can be handed out")
+	}
+	if len(takes) == 2 {
+		first, second := takes[0], takes[1]
+		reach := an.Explore(fn, an.After(first), nil, nil)
+		if reach.Reached(second) {
+			ok := false
+			if phi, isPhi := second.Call.Args[2].(*ssa.Phi); isPhi {
+				ok = true
+				for k, e := range phi.Edges {
+					pred := phi.Block().Preds[k]
+					// edges that come from behind the first call must exclude its offer
+					if first.Block() == pred || first.Block().Dominates(pred) {
+						d, isCall := e.(*ssa.Call)
+						if !isCall || !strings.HasSuffix(an.CalleeName(&d.Call), "CPUSet).Difference") || d.Call.Args[1] != first.Call.Args[2] {
+							ok = false
+						}
+					}
+				}
+			}
+			r.Check(ok, "FLOW", fkey(fn)+"/offers-disjoint", c.InstrPos(second), "the second offer excludes the first", "after the first takeCPUs the second one is not offered Difference(available, <first offer>): a CPU can be taken twice and the result is smaller than requested")
+		}
 	}
 }
